@@ -404,7 +404,7 @@ CHAIN = {
     "C02": dict(q="MC_C02_q.cfg", t=["MC_C02_t.cfg"], dev='{"CoversNoBoundary"}',
                 rule="every assignment of commands from the lattice {/, /a, /a/b, /ab, /b}(+/a/b/a, /a/a) to invocation and links; "
                      "non-trivial = chains widening a command"),
-    "C03": dict(q="MC_C03_q.cfg", t=["MC_C03_t.cfg", "MC_C03_q.cfg"], dev=None,
+    "C03": dict(q=["MC_C03_q.cfg", "MC_C03_q2.cfg"], t=["MC_C03_t.cfg", "MC_C03_t2.cfg", "MC_C03_q2.cfg"], dev=None,
                 rule="every distribution of acceptance sets over the statement slots of every link x argument point x hook; "
                      "non-trivial = some statement rejects the (hooked) arguments"),
     "C04": dict(q="MC_C04_q.cfg", t=["MC_C04_t.cfg"], dev=None,
@@ -421,7 +421,8 @@ def check_chain(pid):
         c = Ctx(pid, tier)
         q = tier == "quick"
         spec = CHAIN[pid]
-        cfgs = [spec["q"]] if q else spec["t"]
+        qcfgs = spec["q"] if isinstance(spec["q"], list) else [spec["q"]]
+        cfgs = qcfgs if q else spec["t"]
         for cfg in cfgs:
             cp = c.case_path(pid)
             c.mc("MC_Chain", cfg, dict(Deviations="{}", Emit="Emit"), label="ideal machine = declarative rules", timeout=1500,
@@ -429,7 +430,7 @@ def check_chain(pid):
             c.replay("chain:" + pid, cp, rule=spec["rule"])
             os.remove(cp)
         if spec["dev"]:
-            c.mc("MC_Chain", spec["q"], dict(Deviations=spec["dev"], Emit=""),
+            c.mc("MC_Chain", qcfgs[0], dict(Deviations=spec["dev"], Emit=""),
                  expect_violation=["Agree", "AudIrrelevant", "SoundPrincipals", "SoundCommands", "Complete"],
                  label="sensitivity: deviation breaks machine = rules")
         tr = c.drive("chain", 1500 if q else 20000)
